@@ -66,6 +66,29 @@ class DBM:
                 elif n < self.get(a, b):
                     self.m[(a, b)] = n
 
+    def close(self):
+        """all consequences of the recorded differences (shortest paths); a widened matrix is not closed by itself"""
+        if self.bottom:
+            return self
+        vs = list(self.vars() | {'0'})
+        for k in vs:
+            for a in vs:
+                ak = self.get(a, k)
+                if ak == INF:
+                    continue
+                for b in vs:
+                    kb = self.get(k, b)
+                    if kb == INF:
+                        continue
+                    n = ak + kb
+                    if a == b:
+                        if n < 0:
+                            self.bottom = True
+                            return self
+                    elif n < self.get(a, b):
+                        self.m[(a, b)] = n
+        return self
+
     def forget(self, x):
         for k in [k for k in self.m if x in k]:
             del self.m[k]
@@ -205,7 +228,10 @@ class AbsInt:
                     it = int_type(e.ty)
                     if it:
                         self.types[p] = it
-                        self.clamp_type(st, p)
+                if p in self.types and not st.bottom:
+                    lo_, hi_ = st.bounds(p)
+                    if lo_ == -INF or hi_ == INF:
+                        self.clamp_type(st, p)       # whichever copy of the state meets the name first: its type bounds it
                 return ('lin', p, 0)
         if k == 'un' and a[0] == '-':
             v = self.lin(a[1], st)
@@ -701,7 +727,7 @@ class AbsInt:
             del self.obligations[saved_obl:]
             del self.loops[saved_loops:]
             self.defs = {}
-            h = head.copy()
+            h = head.copy().close()       # the body is analysed from the closed copy; the widening sequence keeps `head` as it is
             ghosts = {}
             for v in assigned:
                 g = v + "'0"
